@@ -78,6 +78,7 @@ def SOURCES():
 # Convex
 # ------------------------------------------------------------------------------------------
 
+BROADCASTING = "ASXLF"     # element-wise atoms: abs, square, exp, log, softplus
 FRONT = "ro"      # "dro": the same obligations on the dro wrapper classes (DecConvex, DecPerspConvex, piecewise over DecAffine)
 
 
@@ -128,6 +129,16 @@ def _other(c, ns, kind):
         return _aff(c, ns["m"], model, oshape, [y.first], "oth")
     if kind == "vars":
         return y
+    if kind in ("array-bc", "affine-bc"):
+        # an operand of LARGER broadcast shape than the atom (NumPy broadcasting of the atom against it)
+        bshape = (2,) + tuple(oshape) if oshape != () else (2,)
+        if kind == "array-bc":
+            a = sym_array(c, bshape, "arrbc")
+            for v in np.asarray(a, dtype=object).reshape(-1):
+                c.assume(v != 0)               # zero entries of the operand are explored with the same-shape kinds
+            return a
+        a = sym_affine(c, model, bshape, [y.first], "othbc", nz=True)
+        return lp.DecAffine(ns["m"], a) if FRONT == "dro" else a
     raise ValueError(kind)
 
 
@@ -162,7 +173,7 @@ def convex_ops(xtype, cls_name="Convex", mk=_mk_convex, den=atoms.den_convex, me
         f"xtype={xtype}")
 
     # ---- __add__ / __radd__ / __sub__ / __rsub__ with each operand kind
-    for kind in ("real", "array", "affine", "vars"):
+    for kind in ("real", "array", "affine", "vars") + (("array-bc", "affine-bc") if xtype in BROADCASTING else ()):
         def setup(c, kind=kind):
             ns = mk(c, xtype)
             ns["o"] = _other(c, ns, kind)
@@ -200,7 +211,7 @@ def convex_ops(xtype, cls_name="Convex", mk=_mk_convex, den=atoms.den_convex, me
         f"xtype={xtype},other=affine")
 
     # ---- comparisons
-    for kind in ("real", "affine"):
+    for kind in ("real", "affine") + (("affine-bc",) if xtype in BROADCASTING else ()):
         def setup(c, kind=kind):
             ns = mk(c, xtype)
             ns["o"] = _other(c, ns, kind)
